@@ -1,5 +1,6 @@
 import VOPyVerif.Proofs.AccuracyRegions
 import VOPyVerif.Proofs.IntegrationReal
+import VOPyVerif.Proofs.StepsCongr
 /-!
 # C05 — VOGP / ε-PAL keep ε-isolated optima; `P` is internally non-ε-dominated
 
@@ -424,5 +425,39 @@ example :
       norm_num [Fin.sum_univ_two, rMu] at this
     · have := hall 1
       norm_num [Fin.sum_univ_two, rMu] at this
+
+end VOPy.C05
+
+/-! # INVARIANCE — translation twins of whole runs (see the section of the same name in `Props/C01.lean`) -/
+namespace VOPy.C05
+open VOPy VOPy.Steps VOPy.Accuracy
+
+/-- **Twin runs of VOGP / ε-PAL.**  If the three oracles (`is_dominated`, `is_covered`, the pessimistic
+test) of two runs agree on all pairs of designs `< K` in every round `< T`, the trajectories `(S, P)`
+are identical up to round `T`. -/
+theorem vogp_translation_twin (K : Nat) (isDom isDom' isCov isCov' pd pd' : Nat → Rel) (T : Nat)
+    (h : ∀ r, r < T → ∀ i, i < K → ∀ j, j < K →
+      isDom' r i j = isDom r i j ∧ isCov' r i j = isCov r i j ∧ pd' r i j = pd r i j) :
+    ∀ t, t ≤ T → vogpRun K isDom' isCov' pd' t = vogpRun K isDom isCov pd t :=
+  vogpRun_congr K isDom isDom' isCov isCov' pd pd' T h
+
+/-- **Twin runs of the executable core**: three computed oracles invariant under a transformation `Tr`
+of the (well-formed) displayed regions give the identical run. -/
+theorem vogp_core_translation_twin {ρ : Type} (Tr : ρ → ρ) (ok : ρ → Prop) (dom cov pess : ρ → ρ → Bool)
+    (hd : ∀ a b, ok a → ok b → dom (Tr a) (Tr b) = dom a b)
+    (hc : ∀ a b, ok a → ok b → cov (Tr a) (Tr b) = cov a b)
+    (hp : ∀ a b, ok a → ok b → pess (Tr a) (Tr b) = pess a b)
+    (K : Nat) (fresh : Nat → Nat → ρ) (hfresh : ∀ r i, ok (fresh r i)) :
+    Core.vogpCore K dom cov pess (fun r i => Tr (fresh r i)) = Core.vogpCore K dom cov pess fresh :=
+  Core.vogpCore_map Tr ok dom cov pess hd hc hp K fresh hfresh
+
+/-- non-vacuity: oracles that differ from the example's only outside the designs `0, 1, 2` -/
+example :
+    vogpRun 3 (fun r i j => exDom r i j || decide (3 ≤ j)) exCov (fun r j i => exPess r j i || decide (3 ≤ i)) 1 =
+      vogpRun 3 exDom exCov exPess 1 :=
+  vogp_translation_twin 3 exDom _ exCov _ exPess _ 1
+    (fun r _ i hi j hj => by
+      have h1 : decide (3 ≤ j) = false := by simp; omega
+      simp [h1]) 1 (le_refl _)
 
 end VOPy.C05
